@@ -26,6 +26,7 @@ import (
 	am "github.com/pancsta/asyncmachine-go/pkg/machine"
 	arpc "github.com/pancsta/asyncmachine-go/pkg/rpc"
 	ssrpc "github.com/pancsta/asyncmachine-go/pkg/rpc/states"
+	"github.com/pancsta/asyncmachine-go/pkg/states/pipes"
 	"github.com/pancsta/asyncmachine-go/pkg/x/vnet"
 	"github.com/pancsta/asyncmachine-go/pkg/x/vsched"
 )
@@ -57,6 +58,9 @@ type cfgT struct {
 	Shallow  bool     `json:"shallow,omitempty"`
 	Muts     bool     `json:"sync_mutations,omitempty"`
 	PushMs   int      `json:"push_ms"`
+	// Pipe: a local machine's state A is piped (pipes.Bind) into the network
+	// machine, i.e. the network machine is a pipe target (C18 over RPC)
+	Pipe bool `json:"pipe,omitempty"`
 }
 
 type caseT struct {
@@ -65,6 +69,7 @@ type caseT struct {
 }
 
 type world struct {
+	pm   *am.Machine // pipe source (Pipe configs)
 	src  *am.Machine
 	srv  *arpc.Server
 	cli  *arpc.Client
@@ -124,7 +129,18 @@ func setup(ctx context.Context, c cfgT) (*world, error) {
 			}, am.LogExternal)
 		}
 	}
-	return &world{src: src, srv: srv, cli: cli, tr: tr}, nil
+	w := &world{src: src, srv: srv, cli: cli, tr: tr}
+	if c.Pipe {
+		w.pm = am.New(ctx, am.Schema{"A": {}}, &am.Opts{Id: "pm"})
+		if err := w.pm.VerifyStates(am.S{"A", am.StateException}); err != nil {
+			return nil, err
+		}
+		src.HandlersBindMaps(nil, map[string]am.HandlerFinal{"BState": func(e *am.Event) { time.Sleep(50 * time.Millisecond) }})
+		if _, err := pipes.Bind(w.pm, cli.NetMach, "A", "A", ""); err != nil {
+			return nil, fmt.Errorf("pipes.Bind to the network machine: %w", err)
+		}
+	}
+	return w, nil
 }
 
 var logBuf *strings.Builder
@@ -261,6 +277,16 @@ func (w *world) apply(c cfgT, ev string) string {
 			}
 		}
 		return fmt.Sprint(res)
+	case "sbusy":
+		go w.src.Add1("B", nil)
+	case "padd":
+		if w.pm != nil {
+			return fmt.Sprint(w.pm.Add(st, nil))
+		}
+	case "prem":
+		if w.pm != nil {
+			return fmt.Sprint(w.pm.Remove(st, nil))
+		}
 	case "hold":
 		if l := liveLink(); l != nil {
 			l.HoldToClient()
@@ -377,8 +403,14 @@ func runCase(c caseT, verbose bool) (bad []string, obs string) {
 	if os.Getenv("C09_REPEAT") != "" {
 		o = append(o, "server="+w.srv.Mach.String(), fmt.Sprint("srverr=", w.srv.Mach.Err()), "client="+w.cli.Mach.String(), fmt.Sprint("clierr=", w.cli.Mach.Err()))
 	}
+	if w.pm != nil && w.cli.Mach.Is1(ssC.Ready) && !w.lostReply && w.pm.Is1("A") != w.src.Is1("A") {
+		bad = append(bad, fmt.Sprintf("pipe-diverged: a minute after the last event the piped source has A active=%v, the remote machine behind the network machine A active=%v", w.pm.Is1("A"), w.src.Is1("A")))
+	}
 	o = append(o, "src="+w.src.String(), "mirror="+w.cli.NetMach.String())
 	// tear down
+	if w.pm != nil {
+		w.pm.Dispose()
+	}
 	w.cli.Stop(ctx, nil, true)
 	w.srv.Stop(nil, true)
 	w.cli.Mach.Dispose()
@@ -398,6 +430,7 @@ func configs() []cfgT {
 		{Name: "schema/all/shallow/100ms", PushMs: 100, Shallow: true},
 		{Name: "noschema/allow/deep/100ms", PushMs: 100, NoSchema: true, Allowed: []string{"A", "B"}},
 		{Name: "schema/all/mutations/100ms", PushMs: 100, Muts: true},
+		{Name: "pipe/schema/all/deep/2s", PushMs: 2000, Pipe: true},
 	}
 	if kit.Thorough() {
 		cs = append(cs,
@@ -409,6 +442,11 @@ func configs() []cfgT {
 	}
 	return cs
 }
+
+// pipeAlphabet is used instead of alphabet for Pipe configs.
+// sbusy: the remote machine starts a transition whose handler takes 50ms, so
+// that what arrives meanwhile is only queued there.
+var pipeAlphabet = []string{"padd:A", "prem:A", "sbusy", "cadd:B", "sleep:150ms", "sleep:5s"}
 
 var alphabet = []string{
 	"sadd:A", "srem:A", "sadd:B", "sadd:C", "sadd:E",
@@ -525,11 +563,29 @@ func TestCheck(t *testing.T) {
 		}
 	}
 	rec(nil)
+	var pipeHists [][]string
+	var recp func(h []string)
+	recp = func(h []string) {
+		if len(h) > 0 {
+			pipeHists = append(pipeHists, slices.Clone(h))
+		}
+		if len(h) == depth+1 {
+			return
+		}
+		for _, e := range pipeAlphabet {
+			recp(append(h, e))
+		}
+	}
+	recp(nil)
 	shard, nshard := kit.Shard()
 	cfgs := configs()
 	rep.Note("grid", fmt.Sprintf("%d histories (depth <= %d over %d events) x %d configs", len(hists), depth, len(alphabet), len(cfgs)))
 	n := 0
 	for ci, c := range cfgs {
+		hists := hists
+		if c.Pipe {
+			hists = pipeHists
+		}
 		for hi, h := range hists {
 			n++
 			if (ci*len(hists)+hi)%nshard != shard {
